@@ -24,6 +24,14 @@ def tier(argv_tier=None):
 
 
 def workdir(tag):
+    root = os.path.join(mk.CACHE, 'work')
+    try:        # work directories left behind by runs that were killed: anything older than 12 hours goes
+        for n in os.listdir(root):
+            p = os.path.join(root, n)
+            if time.time() - os.path.getmtime(p) > 12 * 3600:
+                shutil.rmtree(p, ignore_errors=True)
+    except OSError:
+        pass
     d = os.path.join(mk.CACHE, 'work', '%s-%d' % (tag, os.getpid()))
     shutil.rmtree(d, ignore_errors=True)
     os.makedirs(d)
